@@ -341,11 +341,12 @@ func C16() *vk.Check {
 		Level: "exploration",
 		Rule: "the generator builds an instruction list first (so the intended instructions are known independently of the assembler) and prints it as source with random spacing/tabs, trailing comments, blank lines and \\n or \\r\\n line ends; asm.Parse output is decoded by the harness decoder and compared instruction by instruction (batch lines expanded by the table of instructions.texi). " +
 			"Tokens: symbols [a-zA-Z][a-zA-Z0-9_]* of length 1..255, special nodes, _catch, selectors {*, digits, leading zeros, letters, digit-then-letters, letters-then-digits, uppercase-initial}, numbers over all widths, both modes, batch groups of 1..6 DOWN/UP/NEXT/PREVIOUS lines at the end. Half the sources are 'clean' (only token classes no finding is recorded for), so that a new break is not masked by a known one. " +
-			"Plus a concurrency leg: 2..8 clean sources are assembled at the same time through writers that yield before they copy; each must come out byte for byte as when assembled alone. distinct = hash of source text; non-trivial = at least 2 instructions or a batch group.",
+			"Plus a concurrency leg: 2..8 clean sources are assembled at the same time through writers that yield before they copy; each must come out byte for byte as when assembled alone. Plus a command leg: dev/asm is built from the tree under test and run as a process with -f flags.csv on clean sources in which CATCH/CROAK flag numbers are written as CSV names and the CSV also defines flags spelled like the program's symbols, nodes and labels; its output must decode to the instructions written. distinct = hash of source text; non-trivial = at least 2 instructions or a batch group.",
 		Assumptions:    []string{"comment-only lines and a missing final newline are outside the documented grammar and are not generated", "batch lines only at the end of the source (documented MUST)", "wildcard is not used as a MOUT/MNEXT/MPREV/batch selector"},
 		MinEvaluations: 1000,
 		Shards:         func(string) int { return 16 },
 		Run:            runC16,
+		Serial:         c16CLI,
 	}
 }
 
